@@ -33,6 +33,8 @@ package ech
 //@ pure be16(s []byte, o int) int = int(s[o])*256 + int(s[o+1])
 //@ pure be24(s []byte, o int) int = int(s[o])*65536 + int(s[o+1])*256 + int(s[o+2])
 //@ pure MAXREC() int = 16384 + 256
+// catAt: the k-th byte of the concatenation w ‖ b.
+//@ pure catAt(w []byte, b []byte, k int) int = ite(k < len(w), int(w[k]), int(b[k-len(w)]))
 
 // ---------------------------------------------------------------------------
 // tls.go
@@ -43,7 +45,8 @@ package ech
 //@   modifies rpos(conn)
 //@   ensures[S:complete] err == nil ==> len(rec) >= 5 && len(rec) == 5 + be16(rec, 3)
 //@   ensures[F:consumed] len(rec) == rpos(conn) - old(rpos(conn))
-//@   ensures[F:content] forall(k, 0, len(rec), rec[k] == inAt(conn, old(rpos(conn)) + k))
+//@   ensures[F:content] forall(j, old(rpos(conn)), rpos(conn), inAt(conn, j) == rec[j - old(rpos(conn))])
+//@   ensures[F:content-mem] forall(j, offset(rec), offset(rec) + len(rec), mem(rec, j) == inAt(conn, old(rpos(conn)) + j - offset(rec)))
 //@   ensures[S:size] len(rec) <= 5 + MAXREC() && cap(rec) <= 5 + MAXREC()
 //@   ensures[F:legal-length] err != nil && is(err, ErrDecodeError) ==> len(rec) == 5 && be16(rec, 3) > MAXREC()
 //@   ensures[F:errclass] err != nil && !is(err, ErrDecodeError) ==> liberr(err)
@@ -69,7 +72,7 @@ package ech
 //@   requires c != nil
 //@   requires aad ==> echInv(c)
 //@   terminates
-//@   ensures[F:errclass] err != nil ==> liberr(err) && isnil(out)
+//@   ensures[F:errclass] err != nil ==> liberr(err) && isnil(out) && len(out) == 0
 //@   ensures[S:size] err == nil ==> len(out) >= 9 && len(out) <= 5 + 65535
 //@   loop 1 "range c.Extensions"
 //@     invariant[grows] len(bbuf(b)) >= entry(len(bbuf(b)))
@@ -108,7 +111,7 @@ package ech
 //@ ghost atomic32(p any) int
 
 // connInv: the representation invariant of Conn, established by NewConn and preserved by Read and Write.
-//@ pure connInv(c *Conn) bool = c != nil && c.Conn != nil && c.retryCount != nil && c.debugf != nil &&
+//@ pure connInv(c *Conn) bool = c != nil && c.Conn != nil && c.retryCount != nil && c.debugf != nil && len(c.readBuf) <= 5 + 65535 &&
 //@     (c.inner == nil ==> c.writePassthrough && c.readPassthrough && len(c.writeBuf) == 0 && atomic32(c.retryCount) == 0) &&
 //@     (c.inner != nil ==> c.outer != nil && c.outer.echExt != nil && c.hpkeCtx != nil &&
 //@         1 <= hseq(c.hpkeCtx) && hseq(c.hpkeCtx) <= 2 && (!c.readPassthrough ==> hseq(c.hpkeCtx) == 1))
@@ -121,6 +124,7 @@ package ech
 //@   requires len(record) >= 5 && len(c.writeBuf) >= len(record)
 //@   modifies c.writePassthrough, atomic32(c.retryCount)
 //@   allocates serverHello
+//@   ensures[F:errclass] err != nil ==> c.writeBuf[0] == 22 && is(err, ErrDecodeError)
 
 //@ func Conn.Write returns (n, err)
 //@   requires connInv(c)
@@ -128,8 +132,18 @@ package ech
 //@   allocates serverHello
 //@   terminates
 //@   ensures[S:inv] connInv(c)
+//@   ensures[F:order] slen(c.Conn) >= old(slen(c.Conn)) && forall(j, old(slen(c.Conn)), slen(c.Conn), int(sentAt(c.Conn, j)) == catAt(old(c.writeBuf), b, j - old(slen(c.Conn))))
+//@   ensures[F:held] forall(j, offset(c.writeBuf), offset(c.writeBuf) + len(c.writeBuf), int(mem(c.writeBuf, j)) == catAt(old(c.writeBuf), b, slen(c.Conn) - old(slen(c.Conn)) + j - offset(c.writeBuf)))
+//@   ensures[F:nothing-lost] err == nil ==> n == len(b) && slen(c.Conn) - old(slen(c.Conn)) + len(c.writeBuf) == old(len(c.writeBuf)) + len(b)
+//@   ensures[F:no-overrun] slen(c.Conn) - old(slen(c.Conn)) + len(c.writeBuf) <= old(len(c.writeBuf)) + len(b)
+//@   ensures[F:withhold] err == nil ==> len(c.writeBuf) < 5 || len(c.writeBuf) < 5 + be16(c.writeBuf, 3)
+//@   ensures[F:legal-length] err != nil && is(err, ErrDecodeError) && len(c.writeBuf) >= 5 && c.writeBuf[0] != 22 ==> be16(c.writeBuf, 3) > MAXREC()
+//@   ensures[S:size] err == nil ==> len(c.writeBuf) < 5 + MAXREC()
 //@   loop 1 "len(c.writeBuf) >= 5"
 //@     invariant c.inner != nil
+//@     invariant[F:order] slen(c.Conn) >= old(slen(c.Conn)) && forall(j, old(slen(c.Conn)), slen(c.Conn), int(sentAt(c.Conn, j)) == catAt(old(c.writeBuf), b, j - old(slen(c.Conn))))
+//@     invariant[F:held] forall(j, offset(c.writeBuf), offset(c.writeBuf) + len(c.writeBuf), int(mem(c.writeBuf, j)) == catAt(old(c.writeBuf), b, slen(c.Conn) - old(slen(c.Conn)) + j - offset(c.writeBuf)))
+//@     invariant[F:count] slen(c.Conn) - old(slen(c.Conn)) + len(c.writeBuf) == old(len(c.writeBuf)) + len(b)
 //@     decreases len(c.writeBuf)
 
 //@ func Conn.processEncryptedClientHello returns (inner, err)
@@ -172,8 +186,21 @@ package ech
 //@   terminates
 //@   ensures[S:inv] connInv(c)
 //@   ensures[S:count] 0 <= n && n <= len(b)
+//@   ensures[S:size] len(c.readBuf) <= 5 + 65535
+//@   ensures[F:buffered-first] old(len(c.readBuf)) > 0 ==> n == min(len(b), old(len(c.readBuf))) && rpos(c.Conn) == old(rpos(c.Conn)) &&
+//@       forall(k, 0, n, b[k] == old(c.readBuf)[k]) && len(c.readBuf) == old(len(c.readBuf)) - n && forall(k, 0, len(c.readBuf), c.readBuf[k] == old(c.readBuf)[n+k])
+//@   ensures[F:deferred-error] err != nil ==> len(c.readBuf) == 0
+//@   ensures[F:stored-error] old(len(c.readBuf)) == 0 && old(c.readErr) != nil ==> n == 0 && err == old(c.readErr) && rpos(c.Conn) == old(rpos(c.Conn))
+//@   ensures[F:passthrough] old(len(c.readBuf)) == 0 && old(c.readErr) == nil && old(c.readPassthrough) ==>
+//@       rpos(c.Conn) == old(rpos(c.Conn)) + n && forall(j, old(rpos(c.Conn)), rpos(c.Conn), inAt(c.Conn, j) == b[j - old(rpos(c.Conn))]) && len(c.readBuf) == 0
+//@   ensures[F:record] old(len(c.readBuf)) == 0 && old(c.readErr) == nil && !old(c.readPassthrough) &&
+//@       !(old(atomic32(c.retryCount)) == 1 && rpos(c.Conn) - old(rpos(c.Conn)) >= 6 && inAt(c.Conn, old(rpos(c.Conn))) == 22 && inAt(c.Conn, old(rpos(c.Conn)) + 5) == 1) ==>
+//@       forall(j, old(rpos(c.Conn)), old(rpos(c.Conn)) + n, inAt(c.Conn, j) == b[j - old(rpos(c.Conn))]) && forall(j, old(rpos(c.Conn)) + n, rpos(c.Conn), inAt(c.Conn, j) == c.readBuf[j - old(rpos(c.Conn)) - n]) &&
+//@       n + len(c.readBuf) == rpos(c.Conn) - old(rpos(c.Conn))
 
 //@ func NewConn returns (outConn, err)
 //@   requires conn != nil
 //@   terminates
 //@   ensures[S:inv] err == nil ==> connInv(outConn)
+//@   ensures[F:one-record] err == nil ==> rpos(conn) == old(rpos(conn)) + 5 + int(inAt(conn, old(rpos(conn)) + 3))*256 + int(inAt(conn, old(rpos(conn)) + 4))
+//@   ensures[S:size] err == nil ==> len(outConn.readBuf) <= 5 + 65535 && len(outConn.writeBuf) == 0
